@@ -32,7 +32,12 @@ PROPS = {
 
 PROPS["C11"] = dict(
     family="fmt",
-    theorems=[],
+    theorems=T("C11", "format_outcome_eq_spec", "format_eq_spec", "field_eq_spec", "int_eq_spec", "never_truncated_int", "never_truncated_text",
+               "length_eq_max_int", "length_eq_max_text", "zero_pad_position", "zero_flag", "sequential_ignores_refs", "escape_braces",
+               "literal_verbatim", "char_class_wide"),
+    partial="floating-point arguments: the libc rendering is a parameter (C13) and is assumed to fit the library's 64-byte buffer (Arg.FloatFits); the most negative "
+            "int/long/long long is modelled as the repaired code renders it (defect 12 belongs to C12); wide-string arguments (const wchar_t*/char16_t*/char32_t*) "
+            "are not modelled; string arguments shorter than 2^31 bytes, fewer than 2^64 arguments",
     rule="cross product alignment {none,<,>} x pad {none, _*, 0, 0 then _*, _* then 0, _0} x width {0, |r|-1, |r|, |r|+1, |r|+2, 40, 70} x '#' x '+' x class "
          "{default,d,x,X,o,b,c} x &N x 4 item orders over boundary values (0, +-1, min+1, max, digit-count boundaries of each radix, code-point boundaries) of all "
          "eight integer types + char, wchar_t, char8_t, char16_t, char32_t, bool (quick: a seed-dependent sixth; thorough: all); strings (const char*, ST::string, "
